@@ -14,7 +14,7 @@ import (
 
 func TestC06(t *testing.T) {
 	ev := vlib.NewEvidence("C06", "exploration",
-		"a valid session (2 hosts, 2 clients, 2 wallets) is advanced to a random point; then one refused request (bit-flipped signature, other key, malformed signature, replay of an accepted request, nonce older than the freshness window) is injected against each of the 7 signed endpoints naming a live victim identity with a nonce far above the victim's; the digest of all RPC-reachable pool state and of the calls seen by fake hosts must be unchanged, and the victim's next correctly signed request with a smaller-but-fresh nonce must pass verification; non-trivial = refused request injected into a session holding balances/peers; distinct = (endpoint, refusal kind, session point)")
+		"a valid session (2 hosts, 2 clients, 2 wallets) is advanced to a random point; then one refused request (bit-flipped signature, other key, malformed signature, replay of an accepted request, nonce older than the freshness window) is injected against each of the 7 signed endpoints (keep-alives also signed in the deprecated {peers, block_number} form) naming a live victim identity with a nonce far above the victim's; the digest of all RPC-reachable pool state and of the calls seen by fake hosts must be unchanged, and the victim's next correctly signed request with a smaller-but-fresh nonce must pass verification; non-trivial = refused request injected into a session holding balances/peers; distinct = (endpoint, refusal kind, session point)")
 	kinds := []string{"bitflip", "wrong-key", "malformed", "replay", "too-old", "other-registered-identity-same-connection", "replay-under-other-spelling", "replay-while-nonce-store-faults"}
 	points := vlib.Scale(6, 60)
 	for _, driver := range vlib.Drivers() {
@@ -99,21 +99,38 @@ func TestC06(t *testing.T) {
 					}
 					// refused request
 					args := ep.Args(r, identity)
+					// what the signature is made over: the parameters, or - for keep-alives of
+					// older agents - the deprecated form {peers, block_number}, which the pool
+					// still accepts and must treat like any other signed request
+					signArgs := args
+					format := ""
+					if ep.Method == "vipnode_update" && r.Intn(2) == 0 {
+						req := args[0].(pool.UpdateRequest)
+						if len(req.Peers) == 0 {
+							req.Peers = nil // an empty list is omitted on the wire and arrives as nil
+						}
+						args = []interface{}{req}
+						signArgs = []interface{}{struct {
+							Peers       []string `json:"peers"`
+							BlockNumber uint64   `json:"block_number"`
+						}{req.Peers, req.BlockNumber}}
+						format = ":deprecated-format"
+					}
 					forgedNonce := ownNonce + int64(10*time.Minute)
 					var params []interface{}
 					switch kind {
 					case "bitflip":
-						sb, _ := vlib.RefSignBytes(victim.Key, ep.Method, identity, forgedNonce, args...)
+						sb, _ := vlib.RefSignBytes(victim.Key, ep.Method, identity, forgedNonce, signArgs...)
 						sb[r.Intn(64)] ^= 0x10
 						params = append([]interface{}{vlib.EncodeSig(identity, sb), identity, forgedNonce}, args...)
 					case "wrong-key":
-						params = append([]interface{}{vlib.RefSign(attacker.Key, ep.Method, identity, forgedNonce, args...), identity, forgedNonce}, args...)
+						params = append([]interface{}{vlib.RefSign(attacker.Key, ep.Method, identity, forgedNonce, signArgs...), identity, forgedNonce}, args...)
 					case "malformed":
 						params = append([]interface{}{vlib.Pick(r, "", "AAAA", "zz", "0x1234"), identity, forgedNonce}, args...)
 					case "replay":
 						// an accepted request, sent again unchanged
 						n := w.NextNonce(identity)
-						params = append([]interface{}{vlib.RefSign(victim.Key, ep.Method, identity, n, args...), identity, n}, args...)
+						params = append([]interface{}{vlib.RefSign(victim.Key, ep.Method, identity, n, signArgs...), identity, n}, args...)
 						first := guardedCall(w.Local, ep.Method, params...)
 						if !first.Accepted {
 							ev.Violate("setup:first-copy-refused:"+ep.Method, map[string]interface{}{"err": fmt.Sprint(first.Err), "panic": first.Panic})
@@ -123,7 +140,7 @@ func TestC06(t *testing.T) {
 					case "replay-under-other-spelling", "replay-while-nonce-store-faults":
 						// an accepted request of the victim, captured and sent again
 						n := w.NextNonce(identity)
-						params = append([]interface{}{vlib.RefSign(victim.Key, ep.Method, identity, n, args...), identity, n}, args...)
+						params = append([]interface{}{vlib.RefSign(victim.Key, ep.Method, identity, n, signArgs...), identity, n}, args...)
 						first := guardedCall(w.Local, ep.Method, params...)
 						if !first.Accepted {
 							ev.Violate("setup:first-copy-refused:"+ep.Method, map[string]interface{}{"err": fmt.Sprint(first.Err), "panic": first.Panic})
@@ -144,7 +161,7 @@ func TestC06(t *testing.T) {
 						}
 					case "too-old":
 						old := time.Now().Add(-16 * time.Minute).UnixNano()
-						params = append([]interface{}{vlib.RefSign(victim.Key, ep.Method, identity, old, args...), identity, old}, args...)
+						params = append([]interface{}{vlib.RefSign(victim.Key, ep.Method, identity, old, signArgs...), identity, old}, args...)
 						forgedNonce = old
 					}
 					var svc jsonrpc2.Service = w.Local
@@ -162,7 +179,7 @@ func TestC06(t *testing.T) {
 						} else {
 							svc = lw.conns[forger.NodeID].AgentSide
 						}
-						params = append([]interface{}{vlib.RefSign(forger.Key, ep.Method, identity, forgedNonce, args...), identity, forgedNonce}, args...)
+						params = append([]interface{}{vlib.RefSign(forger.Key, ep.Method, identity, forgedNonce, signArgs...), identity, forgedNonce}, args...)
 					}
 					before := w.Digest(universe, accounts)
 					out := guardedCall(svc, ep.Method, params...)
@@ -170,17 +187,17 @@ func TestC06(t *testing.T) {
 						lw.chaos.Fail = nil
 					}
 					after := w.Digest(universe, accounts)
-					ev.Case(fmt.Sprintf("%s/%s/%s/point%d", driver, ep.Method, kind, pt), true)
-					ev.Count("refusals:"+kind, 1)
-					detail := map[string]interface{}{"endpoint": ep.Method, "kind": kind, "driver": driver, "victim": victim.Name, "err": fmt.Sprint(out.Err), "panic": out.Panic, "trace": trace}
+					ev.Case(fmt.Sprintf("%s/%s/%s%s/point%d", driver, ep.Method, kind, format, pt), true)
+					ev.Count("refusals:"+kind+format, 1)
+					detail := map[string]interface{}{"endpoint": ep.Method, "kind": kind + format, "driver": driver, "victim": victim.Name, "err": fmt.Sprint(out.Err), "panic": out.Panic, "trace": trace}
 					switch {
 					case out.Panic != "":
 						ev.Violate(fmt.Sprintf("panic:%s:%s", ep.Method, kind), detail)
 					case !out.Verify && !(kind == "replay-while-nonce-store-faults" && out.Err != nil && !out.Accepted):
-						ev.Violate(fmt.Sprintf("not-refused:%s:%s", ep.Method, kind), detail)
+						ev.Violate(fmt.Sprintf("not-refused:%s:%s%s", ep.Method, kind, format), detail)
 					case before != after:
 						detail["diff"] = diffLines(before, after)
-						ev.Violate(fmt.Sprintf("refused-request-left-trace:%s:%s", ep.Method, kind), detail)
+						ev.Violate(fmt.Sprintf("refused-request-left-trace:%s:%s%s", ep.Method, kind, format), detail)
 					}
 					// the owner's next request: smaller than the forged nonce, but fresh
 					if kind != "too-old" {
@@ -201,7 +218,7 @@ func TestC06(t *testing.T) {
 						}
 						if nerr != nil && strings.Contains(nerr.Error(), "failed to verify") {
 							detail["followup_err"] = nerr.Error()
-							ev.Violate(fmt.Sprintf("nonce-consumed-by-refused-request:%s:%s", ep.Method, kind), detail)
+							ev.Violate(fmt.Sprintf("nonce-consumed-by-refused-request:%s:%s%s", ep.Method, kind, format), detail)
 						}
 						ev.Count("followups-accepted", 1)
 					}
